@@ -1,10 +1,46 @@
 (* P_C20.v — property theorems for C20 only. *)
-From ZT Require Import Base Digraph DigraphEnum DigraphFacts.
+From ZT Require Import Base Digraph DigraphEnum DigraphFacts TarjanBase Tarjan TarjanGraph TarjanSpec.
 
-(* For every digraph on at most 3 nodes, every root (set-iteration) order and every order of every
-   adjacency list, and both modes: the enumeration terminates within its fuel without error, yields
-   every strongly connected component exactly once, the components partition the nodes (trivial mode),
-   and default mode yields exactly the classes with more than one node or a self-loop. *)
+(* UNBOUNDED.  For every directed graph — any number of nodes, every root (set-iteration) order, every order of
+   every adjacency list — whose node list is duplicate-free and whose edges end in nodes, in both modes: the
+   iterative enumeration of digraph.sccs terminates within its fuel without error; the emitted components are
+   pairwise disjoint; each is non-empty, consists of nodes and is exactly a mutual-reachability class (so every
+   strongly connected component is yielded at most once, whole); and a node is covered iff the mode is `trivial`
+   or the node lies on a cycle (self-loop, or a second node in its class): in trivial mode the components
+   partition the nodes, in default mode exactly the components containing a cycle are yielded. *)
+Theorem C20_sccs_correct : forall g trivial,
+  NoDup (nodes g) -> (forall x y, In y (adj g x) -> In y (nodes g)) ->
+  exists comps, sccs g trivial = Ok comps /\
+    NoDup (concat comps) /\
+    (forall c, In c comps -> c <> [] /\ forall x, In x c -> In x (nodes g) /\ forall y, In y c <-> (reach g x y /\ reach g y x)) /\
+    (forall x, In x (nodes g) -> (In x (concat comps) <-> (trivial = true \/ cyc g x))).
+Proof. exact sccs_correct. Qed.
+Print Assumptions C20_sccs_correct.
+
+(* every graph DiGraph can hold (add_nodes / add_neighbors in any order, unknown neighbours ignored or rejected)
+   meets those hypotheses *)
+Theorem C20_every_built_graph : forall os g trivial, apply_ops empty_graph os = Some g ->
+  exists comps, sccs g trivial = Ok comps /\
+    NoDup (concat comps) /\
+    (forall c, In c comps -> c <> [] /\ forall x, In x c -> In x (nodes g) /\ forall y, In y c <-> (reach g x y /\ reach g y x)) /\
+    (forall x, In x (nodes g) -> (In x (concat comps) <-> (trivial = true \/ cyc g x))).
+Proof. exact sccs_correct_built. Qed.
+Print Assumptions C20_every_built_graph.
+
+(* the executable statement c20_ok that the correspondence check evaluates on the IMPLEMENTATION's output decides
+   exactly that relational statement (the fuelled closure computes reachability) … *)
+Theorem C20_executable_statement_is_the_spec : forall g, NoDup (nodes g) -> (forall x y, In y (adj g x) -> In y (nodes g)) ->
+  forall trivial comps, c20_ok g trivial comps = true <-> c20_spec g trivial comps.
+Proof. exact c20_ok_iff_spec. Qed.
+Print Assumptions C20_executable_statement_is_the_spec.
+
+(* … and the model satisfies it for every graph, unbounded. *)
+Theorem C20_model_satisfies_statement : forall os g trivial, apply_ops empty_graph os = Some g -> c20_holds g trivial = true.
+Proof. exact c20_holds_built. Qed.
+Print Assumptions C20_model_satisfies_statement.
+
+(* Bounded cross-check kept from the first version (proved by evaluation over a complete enumeration): all graphs
+   on at most 3 nodes with every root order and every adjacency order. *)
 Theorem C20_sccs_correct_le3 : forall n g, n <= 3 -> In g (all_graphs n) ->
   forall trivial, exists comps, sccs g trivial = Ok comps /\ c20_ok g trivial comps = true.
 Proof. intros n g Hn Hg t. apply c20_holds_spec. exact (sccs_correct_le3 n g Hn Hg t). Qed.
